@@ -65,4 +65,13 @@ CANARIES = [
         self.inner().peers()""", """    pub fn peers(&self) -> Vec<PeerId> {
         let _n = self.inner().len();
         self.inner().peers()""")]),
+    dict(id='ap-shutdown-try-send', unit=U, what='the shutdown request is dropped when the manager\'s mailbox is full', expect=['NetworkInner::shutdown::request_always_reaches_the_manager'],
+         edits=[('crates/anemo/src/network/mod.rs', """            .send(ConnectionManagerRequest::Shutdown(sender))
+            .await
+            .map_err""", """            .try_send(ConnectionManagerRequest::Shutdown(sender))
+            .map_err""")]),
+    dict(id='ap-connect-drops-expected-identity', unit=U, what='a dial naming an identity reaches the manager without it', expect=['NetworkInner::connect::request_reaches_the_manager_unchanged'],
+         edits=[('crates/anemo/src/network/mod.rs', """                addr, peer_id, sender,""", """                addr, None, sender,""")]),
+    dict(id='ap-is-closed-never', unit=U, what='a network never reports closed', expect=['NetworkInner::is_closed::mailbox_closed'],
+         edits=[('crates/anemo/src/network/mod.rs', """        self.connection_manager_handle.is_closed()""", """        self.connection_manager_handle.is_closed() && false""")]),
 ]
